@@ -713,6 +713,7 @@ func main() {
 	// The live heap is tiny while the allocation rate is high: with the default GOGC the collector runs
 	// thousands of cycles per second and its stop-the-world phases leave most cores idle.
 	debug.SetGCPercent(4000)
+	debug.SetMemoryLimit(3 << 30) // ... but never let the heap grow past 3 GiB: the limit makes the collector run earlier
 	hostA, _ := os.MkdirTemp("", "c19a")
 	hostB, _ := os.MkdirTemp("", "c19b")
 	defer os.RemoveAll(hostA)
